@@ -24,7 +24,7 @@ def _coroutine(ctx, suffix, prefix=""):
     ds = [d for d in ctx.facts.bodies if d.endswith(suffix) and d.startswith(prefix)]
     if len(ds) != 1:
         raise Exception("coroutine %s not found uniquely: %r" % (suffix, ds[:4]))
-    return ctx.body(ds[0])
+    return ctx.ibody(ds[0])
 
 
 def r1(ctx):
@@ -73,8 +73,8 @@ def r2(ctx):
     ctx.check("backtest", ok, "one engine per backtest call", got=len(en), key="one-engine")
     if ok:
         a = en[0][2]
-        ctx.check("backtest", render(a[0]) == "Try::branch(Result::map(Future::poll(BacktestMarketData::time_first_event(^args_constant.market_data), "
-                  "future::get_context(resume)).as:Ready.0, fn:HistoricalClock::new)).as:Continue.0",
+        ctx.check("backtest", render(common.untry(b, a[0])) == "HistoricalClock::new(Future::poll(BacktestMarketData::time_first_event(^args_constant.market_data), "
+                  "future::get_context(resume)).as:Ready.0.as:Ok.0)",
                   "a fresh historical clock starting at the dataset's first event", got=render(a[0])[:160], key="clock")
         ctx.check("backtest", render(a[1]) == "^args_constant.engine_state",
                   "the engine state is the shared initial state (cloned out of the Arc - it cannot be moved)", got=render(a[1]), key="state")
@@ -83,7 +83,7 @@ def r2(ctx):
         ctx.check("backtest", render(a[3]) == "^args_dynamic.strategy" and render(a[4]) == "^args_dynamic.risk",
                   "with this backtest's own strategy and risk manager", got=(render(a[3]), render(a[4])), key="dynamic")
         # Engine::new argument 1 must be an owned EngineState (type-level evidence that a clone happened)
-        eb = ctx.body(en[0][1])
+        eb = ctx.ibody(en[0][1])
         ctx.check("backtest", not eb.locals[2]["ty"].startswith("&"), "Engine::new takes the state by value", got=eb.locals[2]["ty"][:80], key="by-value")
     ms = [tm for bi, t, tm in calls if tm[1].endswith("BacktestMarketData::stream")]
     sbd = [tm for bi, t, tm in calls if mir.short(tm[1]) == "SystemBuild::new"]
@@ -96,7 +96,8 @@ def r2(ctx):
     ctx.check("backtest", ok, "the summary is generated from the engine returned by this call's own shutdown", got=[render(x[2][0])[-80:] for x in ts], key="own-summary")
     gen = [tm for bi, t, tm in calls if mir.short(tm[1]) == "TradingSummaryGenerator::generate"]
     oks = [t for g, t, bi in b.expanded_cases(0) if render(t).startswith("Result::Ok")]
-    ctx.check("backtest", len(gen) == 1 and len(oks) == 1 and render(gen[0]) in render(oks[0]) and "id: ^args_dynamic.id" in render(oks[0]),
+    ctx.check("backtest", len(gen) == 1 and len(oks) >= 1 and all((lambda f: f.get("id") == "^args_dynamic.id" and f.get("trading_summary", "").startswith("TradingSummaryGenerator::generate(mut[generate](Engine::trading_summary_generator(")
+                   and f.get("trading_summary", "").endswith(", ^args_constant.summary_interval)"))(common.agg_fields(x, "BacktestSummary::BacktestSummary")) for x in oks),
               "and returned under this backtest's own id", key="returns")
     ctx.floor("backtest wiring checks", 8, 8)
 
@@ -146,7 +147,7 @@ def r4(ctx):
                 names = set()
                 for dd in [cd] + ctx.closures_of(cd):
                     if dd in ctx.facts.bodies:
-                        for _, _, tm2 in ctx.body(dd).real_calls():
+                        for _, _, tm2 in ctx.ibody(dd).real_calls():
                             names.add(mir.short(tm2[1]))
                             for sub in mir.subterms(tm2):
                                 if sub[0] == "agg" and sub[1].startswith("closure:"):
@@ -174,7 +175,7 @@ def r5(ctx):
         ctx.check("run_backtests", render(rt) == "closure:backtest::{closure#0}{^args_constant, $1}",
                   "each backtest receives (a clone of the Arc to) the shared constants and its own dynamic arguments", got=render(rt), key="args")
         # the clone is an Arc clone: parameter type of backtest
-        bt = ctx.body(ctx.find(path="barter::backtest::backtest"))
+        bt = ctx.ibody(ctx.find(path="barter::backtest::backtest"))
         ctx.check("run_backtests", bt.locals[1]["ty"].startswith("std::sync::Arc<barter::backtest::BacktestArgsConstant<"),
                   "the constants are shared through an Arc (read-only handle)", got=bt.locals[1]["ty"][:80], key="arc")
     # nothing takes &mut of the shared constants
@@ -198,7 +199,7 @@ def r6(ctx):
     terminal audit or the end of the feed"""
     n = 0
     for path, label in (("barter::engine::run::async_run::{closure#0}", "async_run"), ("barter::engine::run::sync_run", "sync_run")):
-        b = ctx.body(ctx.find(path=path))
+        b = ctx.ibody(ctx.find(path=path))
         calls = b.real_calls()
         P = [(bi, t, tm) for bi, t, tm in calls if mir.short(tm[1]) == "engine::process_with_audit"]
         ok = len(P) == 1
